@@ -1,4 +1,5 @@
 import TexelVerif.BookBuild.Link
+import TexelVerif.BookBuild.Serial
 import TexelVerif.Drv.Util
 /-! Line protocol for the book-builder model (property C19).  Mirrors `harness/h_book.cpp` (`book ...` lines):
     every reply lists the nodes whose fields changed since the previous reply, sorted by hash key.
@@ -124,5 +125,36 @@ def step (st : State) (args : List String) : State × String :=
       | none => (st, "bad-op")
     | _, _ => (st, "bad-op")
   | _ => (st, "bad-op")
+
+def hex2 (n : Nat) : String := String.singleton (hexDigit (n / 16)) ++ String.singleton (hexDigit (n % 16))
+
+def hexVal? (c : Char) : Option Nat :=
+  if '0' ≤ c ∧ c ≤ '9' then some (c.toNat - '0'.toNat)
+  else if 'a' ≤ c ∧ c ≤ 'f' then some (c.toNat - 'a'.toNat + 10) else none
+
+def bytesOfHex? : List Char → Option (List Nat)
+  | [] => some []
+  | [_] => none
+  | a :: b :: t => match hexVal? a, hexVal? b, bytesOfHex? t with
+    | some x, some y, some r => some ((x * 16 + y) :: r)
+    | _, _, _ => none
+
+/-- `bookrec ...`: the serialisation kernels of `BookNode` -/
+def stepRec (args : List String) : String :=
+  match args with
+  | ["ser", key, cm, score, time] =>
+    match parseNat? key, parseInt? cm, parseInt? score, parseInt? time with
+    | some key, some cm, some score, some time =>
+      if key ≥ 2^64 ∨ cm < 0 ∨ cm > 65535 ∨ score < -32768 ∨ score > 32767 ∨ time < 0 ∨ time > 4294967295 then "bad-op"
+      else String.join ((Rec.encode { key := key, move := cm.toNat, score := score, time := time.toNat }).map hex2)
+    | _, _, _, _ => "bad-op"
+  | ["deser", h] =>
+    if h.length ≠ 32 then "bad-op" else
+    match bytesOfHex? h.toList with
+    | some bytes => match Rec.decode bytes with
+      | some r => s!"{hex r.key} {r.move} {r.score} {r.time}"
+      | none => "bad-op"
+    | none => "bad-op"
+  | _ => "bad-op"
 
 end Drv.BookBuild
